@@ -411,6 +411,9 @@ func strLen(v value) int {
 	case string:
 		return len(s)
 	case symstr:
+		if seqHasDec(s.b) {
+			panic(engineError("concrete length of a string with a decimal segment"))
+		}
 		return len(s.b)
 	}
 	panic(engineError(fmt.Sprintf("strLen: %T", v)))
@@ -480,6 +483,9 @@ func (i *interpreter) strEq(a, b value) value {
 			return x == y
 		}
 	}
+	if hasDec(a) || hasDec(b) {
+		return i.decEq(a, b)
+	}
 	if strLen(a) != strLen(b) {
 		return false
 	}
@@ -502,6 +508,9 @@ func (i *interpreter) strLess(a, b value, orEqual bool) value {
 			}
 			return x < y
 		}
+	}
+	if hasDec(a) || hasDec(b) {
+		panic(engineError("ordering comparison of strings with decimal segments"))
 	}
 	tt := i.tt()
 	la, lb := strLen(a), strLen(b)
@@ -555,13 +564,15 @@ func renderUnder(v value, m map[string]uint64) string {
 			bits := x.t.eval(m, memo)
 			return fmt.Sprint(bitsToValue(x.k, bits))
 		case symstr:
-			bs := make([]byte, len(x.b))
-			for j, e := range x.b {
+			var bs []byte
+			for _, e := range x.b {
 				switch e := e.(type) {
 				case uint8:
-					bs[j] = e
+					bs = append(bs, e)
 				case sym:
-					bs[j] = byte(e.t.eval(m, memo))
+					bs = append(bs, byte(e.t.eval(m, memo)))
+				case decSeg:
+					bs = append(bs, []byte(fmt.Sprint(e.t.eval(m, memo)))...)
 				}
 			}
 			return fmt.Sprintf("%q", string(bs))
